@@ -221,3 +221,51 @@ Section Proofs.
     cbn [wstart w_handle]. destruct (base_of m hv); reflexivity.
   Qed.
 End Proofs.
+
+(* ------------------------------------------------------------------ histories of wrapper calls *)
+
+Section CallHistories.
+  Variable re_match : N -> pystr -> bool.
+  Variable e : env.
+  Variable c : classdef.
+
+  (* side conditions on the oracles of one call (see [results_not_none], [self_ops_total]) *)
+  Definition call_wf (k : wcall) : Prop :=
+    is_none_val (wc_handle k) = false /\ results_not_none (wc_base k) /\ self_ops_total (wc_base k) (wc_body k).
+
+  Lemma call_refines_mstep a k :
+    call_shape_safe k = true -> call_wf k ->
+    (w_inst (fst (call_exec re_match e c a k)), snd (call_exec re_match e c a k)) = mstep re_match e c a (call_mop k).
+  Proof.
+    intros Hs [Hh [Hc Ht]]. unfold call_shape_safe in Hs. unfold call_mop, call_exec.
+    destruct (classify (wc_kind k) (wc_meth k) (wc_body k)) as [g| | |] eqn:Ecl; try discriminate.
+    exact (cmr_body_sound re_match e (wc_base k) (wc_partial k) c (wc_field k)
+             (wc_kind k) (wc_meth k) (wc_body k) g a (wc_handle k) (wc_live k) Ecl Hh Hc Ht).
+  Qed.
+
+  (* a whole history of calls through recognised bodies IS the history of the corresponding coarse operations *)
+  Theorem calls_refine_ops : forall ks a,
+      Forall (fun k => call_shape_safe k = true /\ call_wf k) ks ->
+      run_calls re_match e c a ks = run_ops re_match e c a (map call_mop ks).
+  Proof.
+    induction ks as [|k ks IH]; intros a HF; [reflexivity|].
+    inversion HF as [|k' ks' [Hs Hw] HF']; subst.
+    unfold run_calls, run_ops in *. cbn [fold_left map].
+    pose proof (call_refines_mstep a k Hs Hw) as H1.
+    assert (Hi : w_inst (fst (call_exec re_match e c a k)) = fst (mstep re_match e c a (call_mop k))).
+    { rewrite <- H1. reflexivity. }
+    rewrite Hi. apply IH. exact HF'.
+  Qed.
+
+  (* ... so the history theorem of C03 applies to it: any sequence of calls of methods whose bodies are classified
+     copy-mutate-reassign, with acceptable would-be-stored values, keeps the instance valid -- failed calls included *)
+  Theorem call_history_valid : forall ks a,
+      hook_wf c = true -> struct_ok re_match e c a = true ->
+      Forall (fun k => call_shape_safe k = true /\ call_wf k) ks ->
+      hist_safe re_match e c a (map call_mop ks) = true ->
+      struct_ok re_match e c (run_calls re_match e c a ks) = true.
+  Proof.
+    intros ks a Hwf Hok HF Hs. rewrite (calls_refine_ops ks a HF).
+    exact (proj1 (history_safe re_match e c Hwf (map call_mop ks) a Hok Hs)).
+  Qed.
+End CallHistories.
